@@ -18,7 +18,7 @@ PROP = dict(
                 "compares: the version each request carries and its answer, the request set of each poll, every caller's result class (nil / own context error / poll error; leader and coalesced callers), every Cache.Write document, every "
                 "handle value, the final flush at Close; plus tick times of the default ticker under virtual time over 48 store instances (12 intervals from 10ns to 1 year)."),
     level_note="Trusted: Coq kernel+VM, testing/synctest scheduler, the scripted StoreClient and its recording; the differential tie is sampled; results of ticker-driven polls are not observable (only their requests, cache writes and later state); Cache.Write never fails in these runs.",
-    rule=("36 systematic cases (k=1..6 secrets x failing request position x 2 error kinds, all secrets changed, then a clean poll) + 81 systematic cancellation cases (k=1..5 x position x 0-2 joiners x leader/joiner/both) + 300 random timelines (8-24 driver actions; a poll has per-position hooks: "
+    rule=("36 systematic cases (k=1..6 secrets x failing request position x 2 error kinds, all secrets changed, then a clean poll) + 126 systematic cancellation cases (k=1..5 x position x 0-2 joiners x leader while held / joiner / both / leader right after the answer) + 300 random timelines (8-24 driver actions; a poll has per-position hooks: "
           "45% of positions carry 0-3 interleaved actions, 14% a failure, 8% a value answer for an unchanged version) + 48 cadence runs; a timeline is non-trivial if it has a successful poll, a poll "
           "that installed something and (a failed poll or a change during a poll or a coalesced Refresh); distinct by input text"),
     explain="requests (version carried / set per poll), Refresh results, Cache.Write documents or handle values of the real Store differ from the poll model on this timeline, or the default ticker's tick times are not one admissible constant period",
